@@ -661,6 +661,9 @@ func Request(t *rapid.T, tb model.TableSpec, cfg Cfg) model.ReqSpec {
 		}
 	case x < 8:
 		ct = pick(t, "ct", MediaPool)
+	case x == 8 && chance(t, "ctlist", 40):
+		// not a documented input, but an "arbitrary Content-Type string" all the same: a list
+		ct = pick(t, "ct", MediaPool) + pick(t, "ctsep", []string{",", ", ", " ,"}) + pick(t, "ct2", MediaPool)
 	}
 	// Accept
 	acc := ""
